@@ -15,9 +15,28 @@ pub fn gen_hostile(rng: &mut Rng, max_nest: usize) -> (String, Option<Node>) {
     // metacharacters as literals (rendered escaped, also inside classes): the helpers that re-scan
     // the pattern text (nesting table, flag x stripper) must cope with them
     let cfg = GenCfg::std(&['a', 'b', 'A', 'B', '1', ' ', '\n', 'a', 'b', '\u{10400}', '[', ']', '(', ')', '\\', '{', '-', '^', '$', '|']);
-    match rng.below(12) {
+    match rng.below(13) {
         0 | 1 => {
             let a = gen_pattern(rng, &cfg);
+            (a.render(), Some(a))
+        }
+        12 => {
+            // capture-state shapes: alternatives made of directly quantified groups and literals, so
+            // that failed attempts at earlier start positions leave capture state behind
+            let letters = ['a', 'b', 'c', 'd'];
+            let nb = 2 + rng.below(2);
+            let mut branches = vec![];
+            for _ in 0..nb {
+                let mut v = vec![];
+                for _ in 0..1 + rng.below(2) {
+                    let g = Node::Group(Box::new(Node::Char(*rng.pick(&letters))));
+                    let (min, max) = *rng.pick(&[(0, Some(1)), (1, Some(2)), (0, None), (1, None), (1, Some(1))]);
+                    v.push(if (min, max) == (1, Some(1)) { g } else { Node::Repeat { body: Box::new(g), min, max, greedy: !rng.chance(1, 4), spell: 0 } });
+                }
+                v.push(Node::Char(*rng.pick(&letters)));
+                branches.push(Node::Cat(v));
+            }
+            let a = Node::Alt(branches);
             (a.render(), Some(a))
         }
         2 | 3 | 4 => {
